@@ -45,6 +45,9 @@ pub fn trivia_run(rng: &mut Rng, lay: &Layout, after: Option<(K, &str)>, uid: &m
     if needs_blank_first {
         s.push_str(*rng.pick(&[" ", "\t", "\n", " \n"]));
     }
+    // K1-safe placement: no directive run right after a string literal / escaped identifier
+    let after_literal = matches!(after, Some((K::EscId, _)) | Some((K::Str, _)));
+    let lay = &Layout { directives: lay.directives && !after_literal, defines: lay.defines && !after_literal, ..*lay };
     let n = rng.range(if s.is_empty() { 1 } else { 0 }, 3);
     for _ in 0..n {
         let k = rng.below(100);
